@@ -976,6 +976,24 @@ func (env *SpecEnv) call(x *ECall) SVal {
 		}
 		ap := ex.varOf(env.old, "allocptr", SInt)
 		return env.boolVal(and(app(SBool, "(_ is obj)", ref), app(SBool, ">=", app(SInt, "oid", ref), ap)))
+	case "fits":
+		// fits(v, n): the unsigned value v is representable on n bits (0 <= v < 2^n, n in 1..64); int mode only
+		if len(x.Args) != 2 || ex.cx.mode != "int" {
+			return env.fail("fits(v, n) in int mode")
+		}
+		v, n := env.eval(x.Args[0]), env.eval(x.Args[1])
+		vs, ok1 := v.V.(Sc)
+		ns, ok2 := n.V.(Sc)
+		if !ok1 || !ok2 || vs.T.Sort != SInt || ns.T.Sort != SInt {
+			return env.fail("fits of non-integers")
+		}
+		vt := ex.cx.name("fv", vs.T)
+		nt := ex.cx.name("fn", ns.T)
+		var alts []Term
+		for k := 1; k <= 64; k++ {
+			alts = append(alts, and(eq(nt, intLit(int64(k))), app(SBool, "<", vt, bigLit(pow2(k)))))
+		}
+		return env.boolVal(and(app(SBool, "<=", intLit(0), vt), or(alts...)))
 	case "upper":
 		v := env.eval(x.Args[0])
 		sc, ok := v.V.(Sc)
